@@ -33,13 +33,14 @@ class AsGeneral(torch.nn.Module):
 
 def scenario(task):
     import torchsde
-    st, method, nt, d, m, nsteps = task
+    st, method, nt, d, m, nsteps = task[:6]
+    degy = task[6] if len(task) > 6 else 2
     mm = e1.noise_dim(nt, d, m)
     outs = []
     ts = [0.0, 0.07, 0.1] if nsteps == 1 else [0.0, 0.13, 0.2]
     for general in (False, True):
         mk = sdes.Maker(symbolic=True, seed=61)
-        base = sdes.PolySDE(mk, st, nt, d=d, m=mm, degt=1, degy=2)
+        base = sdes.PolySDE(mk, st, nt, d=d, m=mm, degt=1, degy=degy)
         sde = AsGeneral(base) if general else base
         bm = sdes.KeyedBM(mk, 1, mm, levy=sdes.levy_for(method))
         y0 = mk('y0', (1, d), values=0.3 + 0.1 * np.arange(d).reshape(1, d))
@@ -68,7 +69,7 @@ def tasks_for(tier):
         for st, ms in METHODS.items():
             for method in ms:
                 for nt in ('diagonal', 'scalar', 'additive'):
-                    T.append((st, method, nt, 1, 2, 2))
+                    T.append((st, method, nt, 1, 2, 2, 1))      # two steps, affine f, g
     return T
 
 
@@ -99,13 +100,15 @@ def run(ctx):
 
 def replay(data):
     import torchsde
-    st, method, nt, d, m, nsteps = data['replay']['task']
+    task = data['replay']['task']
+    st, method, nt, d, m, nsteps = task[:6]
+    degy = task[6] if len(task) > 6 else 2
     mm = e1.noise_dim(nt, d, m)
     ts = [0.0, 0.07, 0.1] if nsteps == 1 else [0.0, 0.13, 0.2]
     outs = []
     for general in (False, True):
         mk = sdes.Maker(symbolic=False, seed=61)
-        base = sdes.PolySDE(mk, st, nt, d=d, m=mm, degt=1, degy=2)
+        base = sdes.PolySDE(mk, st, nt, d=d, m=mm, degt=1, degy=degy)
         sde = AsGeneral(base) if general else base
         bm = torchsde.BrownianInterval(0., ts[-1], size=(1, mm), dtype=torch.float64, entropy=5, levy_area_approximation=sdes.levy_for(method))
         y0 = torch.tensor(0.3 + 0.1 * np.arange(d).reshape(1, d))
